@@ -1925,3 +1925,55 @@ def replay(rep):  # noqa: F811
         print('replay: %s' % ('violation reproduced on the real code' if w2 else 'not reproduced'))
         return 1 if w2 else 0
     return _rp28(rep)
+
+
+# ---- clockdays (C04): time-of-day literals with a named zone on the days the clocks change (history = the context's clock) ----
+_CLOCK_DAYS = [(1773000000, 'US/Pacific'), (1793563200, 'US/Pacific'), (1774814400, 'Europe/Berlin'), (1792958400, 'Europe/Berlin'),
+               (1773000000, 'America/New_York'), (1793563200, 'America/New_York'), (1774814400, 'Europe/London'), (1792958400, 'Europe/London')]
+
+
+def _clockdays_witness():
+    if build_core() != 0:
+        return None
+    for now, tz in _CLOCK_DAYS:
+        lines = ['#%02d:%02d %s#' % (h, m, tz) for h in (0, 1, 2, 3, 23) for m in (0, 30, 59)] + ['#%02d:30:15 %s#' % (h, tz) for h in (1, 2)] + ['#2:30 am %s#' % tz, '#1:30 am %s#' % tz]
+        rc, so, se, dt = run([QUERY_BIN, '--now', str(now)] + lines, timeout=60)
+        bad = [l for l in so.splitlines() if l.startswith('PANIC')]
+        if bad or rc == 124:
+            # find the line
+            cur = None
+            for l in so.splitlines():
+                if l.startswith('> '):
+                    cur = l[2:]
+                if l.startswith('PANIC'):
+                    break
+            return {'replayer': 'clockdays', 'input': {'query': cur, 'now_unix': now, 'expected': 'a reply or an error value'}, 'output': one_line(so[-600:], 400),
+                    'why': 'with the clock at unix time %d (a day on which %s changes its clocks) the literal %s makes the real evaluator panic: %s' % (now, tz, cur, (bad or ['timeout'])[0]),
+                    'cmd': '%s --now %d %r' % (QUERY_BIN, now, cur)}
+    return None
+
+
+_sf29 = search_family
+
+
+def search_family(fam, prop):  # noqa: F811
+    if fam == 'clockdays':
+        return _clockdays_witness()
+    return _sf29(fam, prop)
+
+
+_rp29 = replay
+
+
+def replay(rep):  # noqa: F811
+    w = rep.get('replay') or {}
+    if w.get('replayer') == 'clockdays':
+        if build_core() != 0:
+            return 2
+        i = w['input']
+        rc, so, se, dt = run([QUERY_BIN, '--now', str(i['now_unix']), i['query']], timeout=60)
+        print(so)
+        bad = 'PANIC' in so
+        print('replay: %s' % ('violation reproduced on the real code' if bad else 'not reproduced'))
+        return 1 if bad else 0
+    return _rp29(rep)
